@@ -213,7 +213,7 @@ def render(term: Any) -> str:
     if k == "map":
         return f"Mapping[{render(term[1])}, {render(term[2])}]"
     if k == "tuple":
-        return f"tuple[{', '.join(render(t) for t in term[1])}]"
+        return f"tuple[{', '.join(render(t) for t in term[1])}]" if term[1] else "tuple[()]"
     if k == "vtuple":
         return f"tuple[{render(term[1])}, ...]"
     if k == "union":
@@ -241,7 +241,7 @@ def gen_term(rng: random.Random, depth: int, hashable: bool = False) -> Any:
     if k == "map":
         return (k, gen_term(rng, min(depth - 1, 1), True), gen_term(rng, depth - 1))
     if k == "tuple":
-        return (k, [gen_term(rng, depth - 1, hashable) for _ in range(rng.randint(1, 3))])
+        return (k, [gen_term(rng, depth - 1, hashable) for _ in range(rng.choice([0, 1, 1, 2, 2, 3]))])
     if k == "union":
         alts = [gen_term(rng, depth - 1, hashable) for _ in range(rng.randint(2, 3))]
         # `None | None` is not valid Python: keep at most one None and never start with two of them
@@ -270,7 +270,7 @@ def all_terms_depth(depth: int) -> list[Any]:
     out += [("seq", t) for t in sub] + [("vtuple", t) for t in sub] + [("optional", t) for t in sub]
     out += [("set", t) for t in hsub] + [("frozenset", t) for t in hsub]
     out += [("map", ("prim", "str"), t) for t in sub] + [("map", t, ("prim", "int")) for t in hsub[:6]]
-    out += [("tuple", [t]) for t in sub] + [("tuple", [t, ("prim", "str")]) for t in sub] + [("tuple", [("prim", "int"), t, ("none",)]) for t in sub[:10]]
+    out += [("tuple", [])] + [("tuple", [t]) for t in sub] + [("tuple", [t, ("prim", "str")]) for t in sub] + [("tuple", [("prim", "int"), t, ("none",)]) for t in sub[:10]]
     out += [("union", [t, ("prim", "bytes")]) for t in sub] + [("union", [("none",), t]) for t in sub[:12]]
     out += [("generic", "Box", [t]) for t in sub] + [("generic", "Pair2", [t, ("prim", "int")]) for t in sub[:12]]
     out += [("palias", "PairT", [t, ("prim", "str")]) for t in sub] + [("palias", "MaybeSeq", [t]) for t in sub] + [("palias", "Table", [t]) for t in sub[:12]]
